@@ -42,6 +42,10 @@ def c01(quick):
         S.append((D(mode=mode, nj=2, pre=2, bs=3, calls=[dict(n=10)]), "random", rnd))
         S.append((D(mode=mode, nj=2, pre="all", bs="auto", bsizes=[1, 3], calls=[dict(n=9)]), "random", rnd))
         S.append((D(mode=mode, nj=2, pre=3, bs=1, managed=True, calls=[dict(n=4), dict(n=3)]), "random", rnd))
+    # the object is called again while an earlier output generator is alive but no longer running (all its tasks are done,
+    # some results not yet taken), or after that generator was closed: the new call yields exactly its own values
+    S.append((D(mode=GEN, nj=2, pre="all", bs=1, calls=[dict(n=4, cons="free"), dict(n=3)]), "random", rnd))
+    S.append((D(mode=GEN, nj=2, pre=2, bs=1, calls=[dict(n=3, cons="free"), dict(n=3, cons="free"), dict(n=2)]), "random", rnd))
     S.append((D(mode=LIST, nj=2, pre=4, bs=1, rc=False, calls=[dict(n=5)]), "dfs", lim))
     S.append((D(mode=LIST, nj=2, pre=2, bs=2, rc=False, calls=[dict(n=7)]), "random", rnd))
     # the real AutoBatchingMixin, fed with scripted (virtual) task durations: fast / ideal / slow / very slow
